@@ -146,10 +146,24 @@ def isolated(st, sw, g):
 
 # ---- reference values computed from the definition, independent of nitime (where that is cheap)
 def _x(st, sw):
-    return [np.array(np.asarray(i.data), dtype=float, order='C') for i in M.mk_inputs(st.kind, ref_variant(sw[1]))]
+    # same dtype as the input (complex stays complex, float32 is computed in float32), plain C-ordered copy
+    return [np.array(np.asarray(i.data), order='C') for i in M.mk_inputs(st.kind, ref_variant(sw[1]))]
+
+
+def ref_rtol(ref):
+    """tolerance of a definition check: single precision data cannot agree to more than ~1e-4"""
+    a = np.asarray(ref)
+    return 5e-4 if a.dtype in (np.float32, np.complex64) else 1e-7
 
 
 def indep_refs(st, sw):
+    try:
+        return _indep_refs(st, sw)
+    except Exception:  # noqa: no definition available for this input (e.g. hilbert of a complex series)
+        return {}
+
+
+def _indep_refs(st, sw):
     fam = st.family
     if fam == "Epochs" and sw[0] == "slice":
         k = parse_key(sw[1])
@@ -217,7 +231,7 @@ def run_case(st, g, sw, h1, h2, fresh_new, refs=None):
             break
         step = {"fired": list(M.Rec.fired), "eq": bool(M.deep_close(v, fresh_new[n]))}
         if refs and n in refs:
-            step["def_ok"] = bool(M.deep_close(plain(v), refs[n], rtol=1e-7))
+            step["def_ok"] = bool(M.deep_close(plain(v), refs[n], rtol=ref_rtol(refs[n]), atol=ref_rtol(refs[n]) * 1e-3))
         res["steps"].append(step)
     return res
 
@@ -381,7 +395,7 @@ def run_script(st, g, script, sw=None):
                 r = {"obj": o, "name": name, "fired": fired, "eq": bool(M.deep_close(v, want)),
                      "seq": len(res["reads"]) + len(res["made"])}
                 if name in refs:
-                    r["def_ok"] = bool(M.deep_close(plain(v), refs[name], rtol=1e-7))
+                    r["def_ok"] = bool(M.deep_close(plain(v), refs[name], rtol=ref_rtol(refs[name]), atol=ref_rtol(refs[name]) * 1e-3))
                 if is_ep and name == "duration":
                     r["len_ok"] = np.shape(np.asarray(v)) == np.shape(np.asarray(objs[o].data))
                 res["reads"].append(r)
